@@ -357,6 +357,36 @@ def run(prog, rep, tier):
     # ---------------- R13.4 no decoder-produced zero count mid-stream
     decoder_zero_count_rule(prog, rep, 'R13.4')
 
+    # ---------------- R13.9 the end of a source is inferred only from a zero count
+    # (a read that returns fewer bytes than there was room for says nothing about what the source still holds)
+    n9 = 0
+    for body in prog.bodies(PKGS):
+        raws = [b for b in body.calls() if b.term.ctrait == 'std::io::Read' and b.term.cmethod in RAW_R]
+        cnt9 = collections.Counter()
+        for rb in raws:
+            pay = ok_payload_locals(body, rb)
+            if not pay:
+                continue
+            n9 += 1
+            bad = []
+            for bl in body.blocks:
+                si = switch_info(prog, body, bl.idx)
+                if not si or si['kind'] != 'bool' or bl.cleanup:
+                    continue
+                e = expr_of(body, si['cond'])
+                if e[0] != 'binop' or e[1] not in ('Eq', 'Ne', 'Lt', 'Le', 'Gt', 'Ge'):
+                    continue
+                for x_, y_ in ((e[2], e[3]), (e[3], e[2])):
+                    if x_[0] == 'place' and (x_[1][0] in pay or (x_[1][0] == rb.term.dest[0] and x_[1][1])):
+                        if not (y_[0] == 'const' and y_[1] in (0, 1)):
+                            bad.append(body.loc(bl.idx))
+            key = 'R13.9|%s|raw-read#%d|count-compared-with-zero-only' % (body.nkey, cnt9[body.nkey])
+            cnt9[body.nkey] += 1
+            rep.ob('R13.9', not bad, key, 'the count of this read is only ever compared with 0' if not bad else
+                   'the count returned by a raw read is compared with something else than 0 (%s): a source that hands over fewer bytes than there is room for is taken for an '
+                   'exhausted one' % ', '.join(bad), body.loc(rb.idx))
+    rep.floor('R13.9', n9, 4, 'raw reads whose count is examined')
+
     # ---------------- R13.8 an error of the destination keeps its kind on the way up (write_all / io::copy / brotli retry only `Interrupted`)
     r13_8(prog, rep)
 
